@@ -444,7 +444,7 @@ func tdNext(c *Ctx, rule, path, short string) {
 	}
 	fn := u.Func(path, "ParquetReader.Next")
 	pos := u.Pos(fn.Pos())
-	w := &nextWalker{u: u, path: path, roles: roles, rrg: u.Func(path, "ParquetReader.readRowGroup")}
+	w := &nextWalker{u: u, path: path, roles: roles, rrg: roleFunc(u, path, "readRowGroup")}
 	for _, b := range fn.Blocks {
 		if inCycleBlock(b) {
 			r.undecided(rule, key, pos, "Next contains a loop")
